@@ -117,6 +117,13 @@ func modeC03(thorough bool) {
 			jobs = append(jobs, job{lst: lst, q: base("z1"), hdr: map[string]string{"method": "GET"}})
 		}
 	}
+	// a plain (UDP) upstream whose truncated answer comes late (3.5 s) and whose TCP side then says nothing: two
+	// faults in a row, one deadline - the response (SERVFAIL) is there 6 s after the query
+	for _, lst := range []string{"udp", "tcp"} {
+		ln := fmt.Sprintf("%s.r0t60d0.z1.test.", uniq())
+		in.ups["u1"].setSeq(ln, "r0t60d3500fT", "r0t60d0fS", "r0t60d0fS")
+		jobs = append(jobs, job{lst: lst, q: mkq(ln)})
+	}
 	par(len(jobs), func(i int) {
 		time.Sleep(time.Duration(i%40) * 5 * time.Millisecond)
 		in.send(jobs[i].lst, "", jobs[i].q, 9*time.Second, jobs[i].hdr)
@@ -499,6 +506,23 @@ func modeC12(thorough bool) {
 	pfDone2 := make(chan struct{})
 	go func() { defer close(pfDone2); modeC12PrefetchEcs(false, false) }()
 	defer func() { <-pfDone2 }()
+	// an upstream that says nothing until the proxy's own deadline: the SERVFAIL the proxy makes up then carries an
+	// OPT iff the query did
+	siDone := make(chan struct{})
+	go func() {
+		defer close(siDone)
+		ins, err := newInst("c12-silent", instOpts{listeners: []string{"udp", "tcp"}, upstreams: map[string]string{"u1": "udp"}, rules: []ruleSpec{{Forward: "u1"}}})
+		if err != nil {
+			return
+		}
+		defer ins.close()
+		par(4, func(i int) {
+			q := mkq(uniq() + ".r0t60d0fS.si.test.")
+			q.opt = i%2 == 0
+			ins.send([]string{"udp", "tcp"}[i/2], "127.0.1.1", q, 9*time.Second, nil)
+		})
+	}()
+	defer func() { <-siDone }()
 	for _, ecs := range []bool{true, false} {
 		in, err := newInst(fmt.Sprintf("c12-ecs%v", ecs), instOpts{
 			listeners: []string{"udp", "tcp", "http", "fasthttp", "quic"},
